@@ -6,7 +6,7 @@ KEYWORDS = sorted(impl.L.PlyLexer.keywords)
 PUNCT = ["...", "[[", "]]", "::", "&&", "||", "->", "<<", "<", ">", "(", ")", "{", "}", "[", "]", ";", ":", ",",
          "|", "%", "^", "!", "*", "-", "+", "&", "=", ".", "?", "/", "~", "\\", "'"]
 NAMES = ["x", "_y", "L", "u8", "u", "U", "R", "e5", "x1", "p3", "_km", "Foo_1", "constx", "intx", "~T", "operatorx"]
-SEPS = ["", "", " ", "  ", "\t", "\n", "\r\n", " \n ", "/* c */", "/* a\n * b */", "// c\n", " \\\n ", "/**/", "//\n", "\r"]
+SEPS = ["", "", " ", "  ", "\t", "\n", "\r\n", " \n ", "/* c */", "/* x **/", "/* * **/", "/****/", "/* a\n * b */", "// c\n", " \\\n ", "/**/", "//\n", "\r"]
 DIRECTIVES = ["#pragma once\n", "#include <a.h>\n", "#include \"b.h\"\n", "#line 7 \"f.h\"\n", "# 12 \"g.h\"\n", "#  line 3 \"h\"\n",
               "#warning hi\n", "# 5 \"x\" 1 2\n", "#line 9 \"a\\\"b\"\n", "#line 0 \"z\"\n"]
 BAD_DIRECTIVES = ["#define X 1\n", "#if 1\n", "#endif\n", "#ifdef A\n", "# warning x\n", "#line 5\n", "#line x \"f\"\n", "#undefine\n",
